@@ -122,7 +122,7 @@ Lemma adj_id t c : uoff c = 0 -> adj t c t = c.
 Proof. intros H. unfold adj. destruct c as [u v]. cbn in *. subst. f_equal. lia. Qed.
 
 Lemma merge_cols_newer t1 t2 reset l1 : forall l2,
-  t1 < t2 ->
+  t1 <= t2 ->
   (match reset with Some r => r <= t2 | None => True end) ->
   length l1 = length l2 \/ l1 = [] ->
   Forall col_inv l1 -> Forall col_inv l2 ->
@@ -151,8 +151,8 @@ Proof.
     + apply IH; auto; try (left; cbn in Hlen; lia).
 Qed.
 
-Lemma merge_rows_newer n t1 r1 t2 r2 :
-  t1 < t2 -> row_inv n r1 -> row_inv n r2 -> merge_rows t1 r1 t2 r2 t2 = r2.
+Lemma merge_rows_le n t1 r1 t2 r2 :
+  t1 <= t2 -> row_inv n r1 -> row_inv n r2 -> merge_rows t1 r1 t2 r2 t2 = r2.
 Proof.
   intros Hlt (D1 & E1 & L1) (D2 & E2 & L2).
   unfold merge_rows. rewrite D1, D2.
@@ -183,6 +183,23 @@ Proof.
     destruct c as [c|]; cbn in Hc; [|contradiction]. cbn [merge_col].
     destruct (Z.ltb_spec (t + uoff c) (t + uoff c)); [lia|].
     unfold keep, hide. rewrite adj_id by exact Hc. reflexivity.
+Qed.
+
+Lemma merge_rows_newer n t1 r1 t2 r2 :
+  t1 < t2 -> row_inv n r1 -> row_inv n r2 -> merge_rows t1 r1 t2 r2 t2 = r2.
+Proof. intros H. apply merge_rows_le. lia. Qed.
+
+(* a statement applied to an absent key: getRow hands back an empty row at time zero *)
+Lemma merge_rows_empty n t0 t r2 :
+  t0 <= t -> row_inv n r2 -> merge_rows t0 empty_row t r2 t = r2.
+Proof.
+  intros Hle (D2 & E2 & L2). unfold merge_rows, empty_row. cbn [doff del cols]. rewrite D2.
+  destruct (Z.ltb_spec (t + 0) (t0 + 0)); [lia|]. cbn [negb andb].
+  destruct r2 as [dl2 df2 cs2]. cbn [del doff cols] in *. subst df2.
+  destruct dl2.
+  - rewrite E2 by reflexivity. f_equal. lia.
+  - destruct (L2 eq_refl) as [Len2 F2]. replace (t + 0 - t) with 0 by lia. f_equal.
+    apply merge_cols_newer; auto.
 Qed.
 
 (* mergeValues returns the newer of two SQL-reachable values, unchanged *)
